@@ -153,10 +153,22 @@ def compare(text, ctx, case, expected=None, want_ok=False):
         # the C side can be explained by it (never a Python-side disagreement with the events known by construction)
         if sigs.f14_text(t) and all(b.get('loader') != 'Loader' and 'rejected by the Python parser' not in b['what'] for b in bad):
             mech = 'F14'
-        # F28: the 'implicit' flag of a collection start event that carries the non-specific tag '!' (nothing else differs)
-        if len(bad) == 1 and bad[0]['what'] == 'events differ between back-ends' and pe[0] == ce[0] == 'ok' and len(pe[1]) == len(ce[1]):
-            neutral = lambda evs: [(e[0], e[1], e[2], None) + tuple(e[4:]) if e[0] in ('MappingStart', 'SequenceStart') and e[2] == '!' else e for e in evs]
-            if neutral(pe[1]) == neutral(ce[1]):
+        # F28: libyaml's parser honours the non-specific tag '!' only on scalar tokens: for a collection or an empty node that
+        # carries it, the 'implicit' flag of the event differs (and an empty '!' scalar is then resolved to '' instead of null).
+        # Both composers and constructors are the same code, so with otherwise identical events nothing else can be behind
+        # node / object differences of such a text
+        if pe[0] == ce[0] == 'ok' and len(pe[1]) == len(ce[1]) and all(b['what'] in ('events differ between back-ends', 'node graphs differ between back-ends',
+                                                                                   'constructed objects differ between back-ends') for b in bad):
+            def neutral(evs):
+                out = []
+                for e in evs:
+                    if e[0] in ('MappingStart', 'SequenceStart') and e[2] == '!':
+                        e = (e[0], e[1], e[2], None) + tuple(e[4:])
+                    elif e[0] == 'Scalar' and e[2] == '!' and e[4] == '':
+                        e = (e[0], e[1], e[2], None) + tuple(e[4:])
+                    out.append(e)
+                return out
+            if pe[1] != ce[1] and neutral(pe[1]) == neutral(ce[1]):
                 mech = 'F28'
     for b in bad:
         tt = text.data if isinstance(text, StreamSource) else text
